@@ -187,6 +187,9 @@ CONFIGS = [
     # a working directory nothing can be written to (not even by root): importing / compiling must not need the cwd
     {"PYTHONHASHSEED": "7", "LANG": "C.UTF-8", "LC_ALL": "C.UTF-8", "PYTHONUTF8": "1", "cwd": "/proc"},
     {"PYTHONHASHSEED": "random", "LANG": "C", "LC_ALL": "C", "PYTHONUTF8": "0", "cwd": "/proc/self"},
+    # a working directory full of decoys: files NAMED like the source texts, the experiment names and usual config files, each
+    # holding a different valid experiment - what a source text means must not depend on what lies around in the cwd
+    {"PYTHONHASHSEED": "5", "LANG": "C.UTF-8", "LC_ALL": "C.UTF-8", "PYTHONUTF8": "1", "cwd": "decoys"},
 ]
 
 
@@ -199,9 +202,44 @@ def batches(draw, nprog, nconf):
         text = M.render(sk["prog"])
         for _ in range(draw(st.integers(6, 12))):
             items.append({"text": text, "inputs": M.enc_inputs(draw(_inputs(sk["prog"], sk["classes"], iv))), "multi": _multi(sk["prog"])})
-    confs = draw(st.lists(st.integers(0, len(CONFIGS) - 3), min_size=nconf - 1, max_size=nconf - 1, unique=True))
-    confs.append(len(CONFIGS) - 1 - draw(st.integers(0, 1)))  # always one child in an unwritable working directory
+    for text in SHORT_TEXTS:
+        for u in range(4):
+            items.append({"text": text, "inputs": M.enc_inputs({"uid": "u%d" % u, "plan": "pro"}), "multi": True})
+    confs = draw(st.lists(st.integers(0, len(CONFIGS) - 4), min_size=nconf - 1, max_size=nconf - 1, unique=True))
+    confs.append(len(CONFIGS) - 2 - draw(st.integers(0, 1)))  # always one child in an unwritable working directory
+    confs.append(len(CONFIGS) - 1)  # and one in a directory of decoy files
     return {"batch": items, "configs": confs}
+
+
+SHORT_TEXTS = ['def e{splitters:uid return 1 weighted 1,2 weighted 1}', 'def exp { splitters: uid return "A" weighted 1, "B" weighted 1 }',
+               'def exp { salt: "s" splitters: uid, plan return "A" weighted 1, "B" weighted 3 }']
+DECOY = 'def %s { splitters: uid, plan return "DECOY" weighted 1 }'
+
+
+def _decoys(d, texts):
+    """fill directory d with files named like the texts / experiment names / usual config names, each a different experiment"""
+    import re
+
+    os.mkdir(d)
+    names = set()
+    for t in texts:
+        m = re.match(r"\s*def\s+([A-Za-z_][A-Za-z0-9_]*)", t)
+        ident = m.group(1) if m else "exp"
+        for n in (t, t.strip(), ident, ident + ".pyab", ident + ".py", ident + ".txt", ident + ".json"):
+            names.add((n, ident))
+    for n in ("experiment.pyab", "config.pyab", ".pyab", "pyab.cfg", "pyab.ini", "pyab.toml", ".pyabrc", "experiments.json", "salt", "salt.txt"):
+        names.add((n, "exp"))
+    made = 0
+    for n, ident in sorted(names):
+        if "/" in n or "\x00" in n or n in ("", ".", "..") or len(n.encode("utf-8", "surrogatepass")) > 255:
+            continue
+        try:
+            with open(os.path.join(d, n), "w", encoding="utf-8") as f:
+                f.write(DECOY % ident)
+            made += 1
+        except (OSError, UnicodeError):
+            pass
+    return made
 
 
 def judge_batch(case):
@@ -230,6 +268,9 @@ def judge_batch(case):
             env["PYAB_SRC"] = os.environ.get("PYAB_SRC", "/repo/src")
             env["PYTHONPATH"] = os.pathsep.join([env["PYAB_SRC"], VERIF])
             cwd = tmp if cfg["cwd"] == "tmp" else cfg["cwd"]
+            if cfg["cwd"] == "decoys":
+                cwd = os.path.join(tmp, "decoys")
+                _decoys(cwd, sorted({it["text"] for it in items}))
             procs.append((ci, subprocess.Popen([sys.executable, "-B", os.path.join(VERIF, "pyabverif", "child_eval.py"), path],
                                                env=env, cwd=cwd, stdout=subprocess.PIPE, stderr=subprocess.PIPE)))
         for ci, p in procs:
